@@ -313,6 +313,24 @@ def fixed_programs():
             out.append(head + [["NewRecord", ["d", "0"], "Entity", ["S", "ex:e"], [[["S", "ex:k"], ["id", u]]]],
                                ["NewRecord", ["d", "0"], "Usage", "none",
                                 [[["Q", "prov", PROVU, "activity"], ["str", "ex:a"]], [["Q", "prov", PROVU, "entity"], [("str" if form == "S" else "id"), u]]]]])
+    # one URI under one ordinary attribute as an xsd:anyURI value (Identifier; directly and as a typed literal) and as
+    # a qualified name, in each order and through each entry path: the set accumulates both values — they are
+    # different information (and print differently in every format)
+    XSDU = "http://www.w3.org/2001/XMLSchema#"
+    U = EXU + "foo"
+    as_id, as_qn, as_lit = ["id", U], ["qn", "ex", EXU, "foo"], ["lit", U, ["qn", "xsd", XSDU, "anyURI"], "none"]
+    k = ["S", "ex:k"]
+    for first, second in ((as_id, as_qn), (as_qn, as_id), (as_lit, as_qn), (as_qn, as_lit)):
+        head = [["NewDoc"], ["AddNs", ["d", "0"], "ex", EXU]]
+        out.append(head + [["NewRecord", ["d", "0"], "Entity", ["S", "ex:e"], [[k, first], [k, second]]]])
+        out.append(head + [["NewRecord", ["d", "0"], "Entity", ["S", "ex:e"], [[k, first]]],
+                           ["AddAttrs", ["r", ["d", "0"], "0"], [[k, second]]],
+                           ["AddAttrs", ["r", ["d", "0"], "0"], [[k, first]]]])
+        out.append(head + [["NewRecord", ["d", "0"], "Usage", ["S", "ex:u"], [[["S", "prov:type"], first]]],
+                           ["AddType", ["r", ["d", "0"], "0"], second]])
+        out.append(head + [["NewRecord", ["d", "0"], "Entity", ["S", "ex:e"], [[k, first]]],
+                           ["NewRecord", ["d", "0"], "Entity", ["S", "ex:e"], [[k, second]]],
+                           ["EqRec", ["r", ["d", "0"], "0"], ["r", ["d", "0"], "1"]]])
     return out
 
 
